@@ -218,3 +218,11 @@ let () = register "xml-wf" (function
 let () = register "xml-protected" (function
   | [c] -> show_list sb (XmlSpec.protected_values_in_order (content_of c))
   | _ -> failwith "xml-protected: args")
+
+(* ---------- the XML text layer: what the writer prints for events, what the reader lexes back ---------- *)
+let () = register "xml-lex" (function
+  | [doc] -> show_list show_ev (XmlText.lex_xml (by doc))
+  | _ -> failwith "xml-lex: args")
+let () = register "xml-render" (function
+  | [L evs] -> atom_of_bytes (XmlText.render_xml (List.map ev_of_sexp evs))
+  | _ -> failwith "xml-render: args")
